@@ -2359,22 +2359,13 @@ class BaseDocReader(LogMixin):
             userMinimum = element.get("userminimum")
             userDefault = element.get("userdefault")
             userMaximum = element.get("usermaximum")
-            if (
-                userMinimum is not None
-                and userDefault is not None
-                and userMaximum is not None
-            ):
-                return self.rangeAxisSubsetDescriptorClass(
-                    name=name,
-                    userMinimum=float(userMinimum),
-                    userDefault=float(userDefault),
-                    userMaximum=float(userMaximum),
-                )
-            if all(v is None for v in (userMinimum, userDefault, userMaximum)):
-                return self.rangeAxisSubsetDescriptorClass(name=name)
-
-            raise DesignSpaceDocumentError(
-                "axis-subset element must have min/max/default values or none at all."
+            # each of the three is optional on its own (a missing bound or
+            # default is the one of the full axis), as the writer omits them
+            return self.rangeAxisSubsetDescriptorClass(
+                name=name,
+                userMinimum=-math.inf if userMinimum is None else float(userMinimum),
+                userDefault=None if userDefault is None else float(userDefault),
+                userMaximum=math.inf if userMaximum is None else float(userMaximum),
             )
 
     def readSources(self):
